@@ -95,7 +95,10 @@ func drawSize(r *rand.Rand) uint64 {
 
 func drawCP(r *rand.Rand) []byte {
 	base := "example.com/log\n123\nq83vEjRWeJCrze8SNFZ4kKvN7xI0VniQq83vEjRWeJA=\n\n— example.com/log AAAAAGx4bnRlc3RzaWduYXR1cmU=\n"
-	switch r.IntN(9) {
+	switch r.IntN(10) {
+	case 9:
+		// percent signs and printf verbs are ordinary bytes of a checkpoint (percent-escaped origins exist)
+		return []byte(strings.Replace(base, "example.com/log\n", "example.com/logs/a%2Fb %s %d %v %!x(MISSING) 100%\n", 1))
 	case 0:
 		return []byte(base)
 	case 1:
